@@ -53,11 +53,16 @@ def objective(rng, n, kinds=("quad", "quad", "abs", "rosen", "noisy", "sinq",
                 "c": rng.uniform(-2, 2, n).tolist()}
     if kind == "const":
         return {"kind": "const", "value": _r(rng, -1, 1)}
+    if kind == "plateau":
+        # exactly 0.0 inside a ball of radius r around c, a squared hinge
+        # outside: runs started inside see models that are identically zero
+        return {"kind": "plateau", "c": rng.uniform(-2, 2, n).tolist(),
+                "r": _r(rng, 0.5, 4.0)}
     raise ValueError(kind)
 
 
 BOUND_PATTERNS = ("free", "lower", "upper", "two", "fixed", "narrow", "tiny",
-                  "nearfixed")
+                  "nearfixed", "width2", "zero")
 
 
 def bounds(rng, n, x0, patterns=None, force=None, radius=1.0):
@@ -88,6 +93,17 @@ def bounds(rng, n, x0, patterns=None, force=None, radius=1.0):
         elif p == "nearfixed":
             lb[i] = c
             ub[i] = float(np.nextafter(c, INF)) if rng.random() < 0.5 else c
+        elif p == "width2":
+            # width exactly 2.0 (unit scaling factor) around a centre that is
+            # not zero: only the shift of the scaling is at work
+            c = float(np.round(c * 2.0) / 2.0) or 0.5
+            lb[i], ub[i] = c - 1.0, c + 1.0
+        elif p == "zero":
+            # a limit exactly equal to 0
+            if rng.random() < 0.5:
+                lb[i], ub[i] = 0.0, _r(rng, 0.5, 3.0)
+            else:
+                lb[i], ub[i] = -_r(rng, 0.5, 3.0), 0.0
         elif p == "huge":
             # finite bounds at the far end of the floating-point range (the
             # width ub - lb overflows for the largest ones)
@@ -286,7 +302,8 @@ def options(rng, n, maxfev=(30, 160), allow=("scale", "nb_points", "radius",
 
 def callback(rng, stop=True):
     cb = {"conv": str(rng.choice(["kw", "pos"])),
-          "form": str(rng.choice(["def", "lambda", "object", "partial"]))}
+          "form": str(rng.choice(["def", "lambda", "object", "partial",
+                                  "unhashable"]))}
     if stop and rng.random() < 0.4:
         cb["stop_at"] = int(rng.integers(1, 40))
     if rng.random() < 0.2:
